@@ -13,7 +13,7 @@ import vf
 vf.use_repo()
 from ak import color as akcolor  # noqa: E402
 from ak.color import ColorsConfig, CHText  # noqa: E402
-from ak.ppobj import PPTable, PrettyPrinter, PPRecordFmt  # noqa: E402
+from ak.ppobj import PPTable, PrettyPrinter, PPRecordFmt, PPWrap  # noqa: E402
 from ak.hdoc import HCommand  # noqa: E402
 from ak.mcaller_http import MCallerHttp, method_http  # noqa: E402
 from ak.ghist import ReposCollection, GHistReport  # noqa: E402
@@ -47,6 +47,8 @@ def build_object(spec, shared):
     kind = spec['kind']
     if kind == 'pp':
         return PrettyPrinter(fmt_json=spec['json'])
+    if kind == 'ppwrap':
+        return PPWrap(unjson(spec['value']))
     if kind in ('table', 'rec'):
         ft = shared.get('ft')
         if ft is None:
@@ -117,6 +119,13 @@ def render(obj, ospec, req, conf_dict, live_conf=None, observe=None):
             observe(type("R", (), {"cp": palette})())
         return "\n".join(str(line) for line in obj._h_doc.gen_help_text(
             obj, HCommand._DFLT_FILT_ARG, palette, ospec['level'], False))
+    if kind == 'ppwrap':
+        # a console wrapper: its only configuration is the global one at the moment it is printed
+        akcolor.set_global_colors_config(ColorsConfig(conf_dict, no_color=no_color))
+        try:
+            return str(obj)
+        finally:
+            akcolor.set_global_colors_config(None)
     if kind == 'hdoc':
         akcolor.set_global_colors_config(ColorsConfig(conf_dict, no_color=no_color))
         try:
@@ -127,6 +136,12 @@ def render(obj, ospec, req, conf_dict, live_conf=None, observe=None):
             return text[:-1] if text.endswith("\n") else text   # print() adds the line break
         finally:
             akcolor.set_global_colors_config(None)
+    if kind == 'table' and req.get('set_fmt') and 'base_spec' not in ospec:
+        # the long-lived table is re-formatted (columns AND limits given) before this request; the reference
+        # builds its table with that format right away
+        if getattr(obj, '_vf_fmt', ospec['fmt']) != req['set_fmt']:
+            obj.fmt = req['set_fmt']
+            obj._vf_fmt = req['set_fmt']
     conf = live_conf if live_conf is not None else ColorsConfig(conf_dict)
     kw = {}
     made_global = False
@@ -205,6 +220,9 @@ def main():
         req.pop('switch_conf', None)      # (the reference renders without any switch in between)
         ospec = scenario['objects'][req['obj']]
         shared = {}
+        if ospec['kind'] == 'table' and req.get('set_fmt') and 'base_spec' not in ospec:
+            ospec = dict(ospec, fmt=req['set_fmt'])
+            req.pop('set_fmt')
         obj = build_object(ospec, shared)
         keep.append((obj, shared))
         try:
